@@ -52,10 +52,21 @@ def cmp_facts(conds):
 def positive_on_path(term, lows, conds, integer=True):
     """True if term > 0 is implied by symbol lower bounds or by a recorded comparison; False if it can
     be zero/negative given the lower bounds alone (and nothing on the path excludes that); None unknown."""
+    lows = dict(lows)
+    facts = cmp_facts(conds)
+    # facts of the form  x + c > 0 / >= 0  on a single symbol raise that symbol's lower bound
+    for d, op in facts:
+        if len(d.terms) <= 2 and op in ("Gt", "GtE"):
+            c0 = d.terms.get((), Fraction(0))
+            rest = [(m, c) for m, c in d.terms.items() if m]
+            if len(rest) == 1 and len(rest[0][0]) == 1 and rest[0][0][0][1] == 1 and isinstance(rest[0][0][0][0], T.Sym) and rest[0][1] == 1:
+                nm = rest[0][0][0][0].name
+                bound = -c0 + ((1 if integer else 0) if op == "Gt" else 0)
+                lows[nm] = max(lows.get(nm, bound), bound)
     lb = lower_bound(term, lows)
     if lb is not None and lb > 0:
         return True
-    for d, op in cmp_facts(conds):
+    for d, op in facts:
         delta = (term - d).const_value()  # term = d + delta
         if delta is None:
             continue
